@@ -197,3 +197,111 @@ pub fn native_eq(a: &stun_rs::StunAttribute, b: &stun_rs::StunAttribute) -> Opti
         ReservationToken, AddressErrorCode, Icmp, MobilityTicket, OtherAddress, Padding, ResponseOrigin, ResponsePort
     )
 }
+
+/// Every way of arriving at a decoder with the options `o`: the builder calls in every order, an option call repeated,
+/// a clone of the finished decoder, a decoder built from a clone of the context, `DecoderContext::default()` for the
+/// empty option set, `MessageDecoder::default()` for the context-less one. All of them must decode alike.
+pub fn decoder_routes(o: Opts, key: Option<&HMACKey>) -> Vec<(String, MessageDecoder)> {
+    let mut v: Vec<(String, MessageDecoder)> = vec![];
+    let canonical = decoder(o, key);
+    v.push(("clone-of-decoder".into(), canonical.clone()));
+    v.push(("clone-of-clone".into(), canonical.clone().clone()));
+    if !o.ctx {
+        v.push(("MessageDecoder::default".into(), MessageDecoder::default()));
+        return v;
+    }
+    if let Some(c) = canonical.get_context() {
+        v.push(("context-cloned".into(), MessageDecoderBuilder::default().with_context(c.clone()).build()));
+    }
+    let mut calls: Vec<u8> = vec![];
+    if o.key && key.is_some() {
+        calls.push(0);
+    }
+    if o.validation {
+        calls.push(1);
+    }
+    if o.unknown_data {
+        calls.push(2);
+    }
+    if o.not_ignore {
+        calls.push(3);
+    }
+    if calls.is_empty() {
+        v.push(("DecoderContext::default".into(), MessageDecoderBuilder::default().with_context(stun_rs::DecoderContext::default()).build()));
+        return v;
+    }
+    let apply = |order: &[u8]| -> MessageDecoder {
+        let mut c = DecoderContextBuilder::default();
+        for k in order {
+            c = match k {
+                0 => c.with_key(key.unwrap().clone()),
+                1 => c.with_validation(),
+                2 => c.with_unknown_data(),
+                _ => c.not_ignore(),
+            };
+        }
+        MessageDecoderBuilder::default().with_context(c.build()).build()
+    };
+    // all permutations (Heap's algorithm, n <= 4)
+    fn perms(a: &mut Vec<u8>, n: usize, out: &mut Vec<Vec<u8>>) {
+        if n <= 1 {
+            out.push(a.clone());
+            return;
+        }
+        for i in 0..n {
+            perms(a, n - 1, out);
+            if n % 2 == 0 {
+                a.swap(i, n - 1);
+            } else {
+                a.swap(0, n - 1);
+            }
+        }
+    }
+    let mut all = vec![];
+    let n = calls.len();
+    perms(&mut calls.clone(), n, &mut all);
+    all.sort();
+    all.dedup();
+    for p in all {
+        let name = format!("builder-order-{}", p.iter().map(|k| ["key", "validation", "unknown_data", "not_ignore"][*k as usize]).collect::<Vec<_>>().join(">"));
+        v.push((name, apply(&p)));
+        // each non-key call repeated at the end
+        if let Some(last) = p.iter().rev().find(|k| **k != 0) {
+            let mut q = p.clone();
+            q.push(*last);
+            v.push((format!("builder-order-{:?}-repeated-call", q), apply(&q)));
+        }
+    }
+    v
+}
+
+pub struct Routes {
+    pub per_opts: Vec<(Opts, MessageDecoder, Vec<(String, MessageDecoder)>)>,
+}
+
+pub fn all_routes(key: Option<&HMACKey>, opts: &[Opts]) -> Routes {
+    Routes { per_opts: opts.iter().map(|o| (*o, decoder(*o, key), decoder_routes(*o, key))).collect() }
+}
+
+/// Decode `bytes` through every construction route and report the first route whose result differs from the canonical
+/// decoder's. Returns the number of route decodes compared.
+pub fn routes_agree(routes: &Routes, bytes: &[u8], rep: &mut crate::util::Report, replay: &dyn Fn() -> serde_json::Value) -> u64 {
+    let mut n = 0;
+    for (o, canonical, alts) in &routes.per_opts {
+        let want = decode_with(canonical, bytes).map(|r| r.map(|x| x.0).map_err(|_| ()));
+        for (name, dec) in alts {
+            n += 1;
+            let got = decode_with(dec, bytes).map(|r| r.map(|x| x.0).map_err(|_| ()));
+            if got != want {
+                let generic: String = name.split(|c: char| c == '[' || c == '-').take(2).collect::<Vec<_>>().join("-");
+                rep.violate(
+                    format!("decoder-construction-route-changes-result/{}", generic),
+                    format!("route {} under {}: {:?} vs canonical {:?}", name, o.show(), got.as_ref().map(|r| r.as_ref().map(|d| d.attrs.len())), want.as_ref().map(|r| r.as_ref().map(|d| d.attrs.len()))),
+                    replay(),
+                );
+                return n;
+            }
+        }
+    }
+    n
+}
